@@ -62,6 +62,8 @@ pub struct Scenario {
     pub post_fault_probe: bool,
     /// keep the events receiver (false: drop it right after connecting)
     pub keep_events: bool,
+    /// run on a multi-thread runtime in real time (true parallel enqueueing); hang limit 30 s wall clock
+    pub realtime: bool,
 }
 
 impl Scenario {
@@ -77,6 +79,7 @@ impl Scenario {
             epilogue: true,
             post_fault_probe: false,
             keep_events: true,
+            realtime: false,
         }
     }
 }
@@ -120,6 +123,17 @@ impl Outcome {
 }
 
 pub const FAR: Duration = Duration::from_secs(3600);
+
+impl Scenario {
+    /// the deadline after which something still pending counts as hung
+    pub fn far(&self) -> Duration {
+        if self.realtime {
+            Duration::from_secs(30)
+        } else {
+            FAR
+        }
+    }
+}
 
 fn proto_kind(e: &MpdProtocolError) -> String {
     match e {
@@ -326,6 +340,7 @@ async fn wait_for(world: &World, limit: Duration, f: impl Fn(&EvKind) -> bool) -
 }
 
 async fn session_main(sc: Scenario) -> Outcome {
+    let far = sc.far();
     let mut out = Outcome { d: mpd_client::verif_hooks::next_command_idle_timeout(), ..Default::default() };
     let world = World::new(sc.world.clone());
     out.greeting_len = sc.world.greeting.len() as u64;
@@ -359,7 +374,7 @@ async fn session_main(sc: Scenario) -> Outcome {
 
     // connect
     let io = world.io();
-    let connected = tokio::time::timeout(FAR, async {
+    let connected = tokio::time::timeout(far, async {
         match &sc.connect {
             ConnectKind::Plain => Client::connect(io).await.map_err(|e| format!("Protocol({})", proto_kind(&e))),
             ConnectKind::Password(p) => Client::connect_with_password(io, p).await.map_err(|e| match e {
@@ -407,7 +422,7 @@ async fn session_main(sc: Scenario) -> Outcome {
         let mut hung = Vec::new();
         let mut pan = Vec::new();
         for (k, h) in handles {
-            match tokio::time::timeout(FAR, h).await {
+            match tokio::time::timeout(far, h).await {
                 Err(_) => hung.push(format!("caller {}", k)),
                 Ok(Err(e)) if e.is_panic() => pan.push(format!("caller {} panicked: {}", k, panics::take_last().unwrap_or_default())),
                 Ok(_) => {}
@@ -456,7 +471,7 @@ async fn session_main(sc: Scenario) -> Outcome {
     if sc.epilogue && out.hung.is_empty() && !dropped_by_plan {
         // wait for quiescence (notification schedule finished, all server output delivered), then a
         // quiet period: the client must have re-idled
-        let _ = tokio::time::timeout(FAR, &mut notifier).await;
+        let _ = tokio::time::timeout(far, &mut notifier).await;
         for _ in 0..10_000 {
             // a quiet period counts only if nothing was in transit at its start and nothing happened during it
             let before = (world.all_output_delivered(), world.inner.lock().unwrap().log.len());
@@ -470,7 +485,7 @@ async fn session_main(sc: Scenario) -> Outcome {
         // end-to-end probe: notifications keep flowing
         world.change(&["epilogue_probe".to_string()]);
         if sc.keep_events {
-            out.epilogue_probe_delivered = Some(wait_for(&world, FAR, |e| matches!(e, EvKind::EventChange(n) if n == "epilogue_probe")).await);
+            out.epilogue_probe_delivered = Some(wait_for(&world, far, |e| matches!(e, EvKind::EventChange(n) if n == "epilogue_probe")).await);
         }
         // let the client re-idle after the probe
         tokio::time::sleep(Duration::from_secs(1)).await;
@@ -486,7 +501,7 @@ async fn session_main(sc: Scenario) -> Outcome {
                 break;
             }
             let waited = tokio::time::Instant::now() - t0;
-            if waited >= FAR {
+            if waited >= far {
                 break;
             }
             tokio::time::sleep(if waited < Duration::from_secs(30) { Duration::from_millis(10) } else { Duration::from_secs(5) }).await;
@@ -501,7 +516,7 @@ async fn session_main(sc: Scenario) -> Outcome {
             let call = CallId { caller: 99, seq: 0 };
             let req = Req::Raw { shape: 1 };
             world.log_ev(EvKind::CallStart { call, desc: "post-closure probe request".into() });
-            match tokio::time::timeout(FAR, exec(cl.clone(), call, req)).await {
+            match tokio::time::timeout(far, exec(cl.clone(), call, req)).await {
                 Ok(result) => world.log_ev(EvKind::CallEnd { call, result }),
                 Err(_) => out.hung.push("post-closure probe request".to_string()),
             }
@@ -515,9 +530,9 @@ async fn session_main(sc: Scenario) -> Outcome {
         drop(client.take());
         world.log_ev(EvKind::HandlesDropped);
     }
-    out.transport_dropped = wait_for(&world, FAR, |e| matches!(e, EvKind::TransportDropped)).await;
+    out.transport_dropped = wait_for(&world, far, |e| matches!(e, EvKind::TransportDropped)).await;
     if let Some(col) = collector {
-        match tokio::time::timeout(FAR, col).await {
+        match tokio::time::timeout(far, col).await {
             Ok(_) => out.events_ended = true,
             Err(_) => out.events_ended = false,
         }
@@ -547,14 +562,19 @@ async fn finish(world: &World, out: &mut Outcome, server: tokio::task::JoinHandl
     }
 }
 
-/// Run one session to completion on a fresh current-thread runtime with paused time.
+/// Run one session to completion on a fresh current-thread runtime with paused time (or, for
+/// `realtime` scenarios, on a 4-worker multi-thread runtime in real time).
 pub fn run_session(sc: &Scenario) -> Outcome {
-    let rt = tokio::runtime::Builder::new_current_thread()
-        .enable_time()
-        .start_paused(true)
-        .rng_seed(tokio::runtime::RngSeed::from_bytes(&sc.rt_seed.to_le_bytes()))
-        .build()
-        .expect("runtime");
+    let rt = if sc.realtime {
+        tokio::runtime::Builder::new_multi_thread().worker_threads(4).enable_time().build().expect("runtime")
+    } else {
+        tokio::runtime::Builder::new_current_thread()
+            .enable_time()
+            .start_paused(true)
+            .rng_seed(tokio::runtime::RngSeed::from_bytes(&sc.rt_seed.to_le_bytes()))
+            .build()
+            .expect("runtime")
+    };
     let sc2 = sc.clone();
     let _ = panics::take_last();
     let res = panics::catch(|| rt.block_on(session_main(sc2)));
